@@ -106,6 +106,48 @@ PROPS = {
         "quick": {"scale": 1, "shards": 8, "timeout_s": 600},
         "thorough": {"scale": 10, "shards": 16, "timeout_s": 3600},
     },
+    # temporary entry added by the C14 builder (lead: replace/adjust as needed)
+    "C14": {
+        "pkg": "c14",
+        "level": "exploration",
+        "rule": ("public point types k256, p256, pallas, vesta, edwards25519 (full curve and prime subgroup), curve25519 (full and prime "
+                 "subgroup), BLS12-381 G1, G2 and their scalar / base fields; oracle = vlib/refcurve (affine math/big model, typed-in "
+                 "constants) after reading AffineX/AffineY out of every library result and re-checking the curve equation; P-256 also "
+                 "against crypto/elliptic, X25519 against crypto/ecdh. Operands: exceptional classes {identity, G, -G, 2G, 3G, -2G, P, -P, "
+                 "2P, P+G, the points with x = 0 where the curve has them, on the full 25519 types the 7 small-order points and 9 "
+                 "mixed-order points} each as an affine (FromAffine) and a projective (reached through library additions, Z != 1) "
+                 "representation, plus drawn multiples of G (a per-seed pool of 16, single / sum / difference). ENUMERATED: every "
+                 "unary operation on every class x representation, Add/Op/Sub/Equal on all ordered pairs x 4 representation "
+                 "combinations, associativity on all ordered triples. Drawn: straight-line programs of 1-5 operations (add, sub, "
+                 "reversed, neg, double, self-add, self-sub, add-negation, Equal); scalar multiplication by every entry point "
+                 "(ScalarMul, ScalarOp, ScalarBaseMul/Op, algebrautils.ScalarMul with field scalars and unreduced naturals, "
+                 "IsTorsionFree, ClearCofactor) with scalar classes {0,1,2,3,N-1,N-2,N,N+1,2N-1,(N+-1)/2,2^k,2^k+-1,8k, constant "
+                 "nibbles, low weight, small, drawn} through 6 constructors (the reducing ones with k + mN); multi-scalar "
+                 "multiplication of lengths 1,2,3,7,8,9,17,64 (Curve.MultiScalarMul/Op, algebrautils.MultiScalarMul with field scalars "
+                 "and naturals of mixed byte length) with shapes {mixed, all-same-point, all-zero-scalars, one-nonzero, cancelling "
+                 "pairs, all-identity}; length 0 is the catalogued finding. Fields: all ordered pairs of 14 boundary classes and drawn "
+                 "values: Add Sub Mul Square Double Neg Inv Div EuclideanDiv predicates Compare Cardinal, low-level Sqrt (ok iff "
+                 "Jacobi symbol 1 or 0, root squares back, root choice not asserted) and Pow, FromWideBytes / FromBytesBEReduce / "
+                 "FromCardinal on wide inputs {drawn, all-ff, multiples of p, p*2^k+a, short}; F_p^2 against refcurve.Fp2. Pairing "
+                 "(no second implementation): e([a]G1,[b]G2) = e(G1,G2)^(ab) with a, b known by construction, bilinearity in each "
+                 "argument, negation, e^r = 1, e != 1, MultiPair / MultiPairAndInvertDuals / product engine = product of single "
+                 "pairings, identity arguments refused or absorbed, GT Mul/Square/Inv/Div/exponent laws. BLS points outside G1/G2 "
+                 "(built through the exported impl value): IsTorsionFree and the group law on E(F_p), E'(F_p^2). Non-trivial: some "
+                 "operand is not a plain drawn multiple of G, or the operation is scalar / multi-scalar multiplication, a pairing, or "
+                 "a field operation on a boundary class; distinct = (curve, operation / method, operand class tuple, scalar class)."),
+        "assumptions": COMMON_ASSUME + [
+            "the pasta model uses the MINA generators (1, sqrt 6) that the library documents, typed in from the Mina specification; "
+            "the curve25519 model uses (9, p - V_RFC7748) as generator (the library's Edwards->Montgomery map is the RFC 7748 map "
+            "composed with the negation automorphism)",
+            "multi-scalar vectors longer than 3 are judged by [sum k_i a_i]G + [sum k_i e_i]T8 with the discrete logarithms (a_i, e_i) of "
+            "the pool points known by construction (one reference scalar multiplication); a drawn sixth of them is also judged by the "
+            "naive reference sum",
+            "Sqrt and Pow exist only on the exported low-level field values (Fp()), the public wrappers have no such methods",
+        ],
+        "env": {"GOMAXPROCS": "2", "GOGC": "400"},
+        "quick": {"scale": 1, "shards": 16, "timeout_s": 900},
+        "thorough": {"scale": 10, "shards": 16, "timeout_s": 3600},
+    },
     # temporary entry added by the C16 builder (lead: replace/adjust as needed)
     "C16": {
         "pkg": "c16",
@@ -313,4 +355,71 @@ PROPS = {
         "thorough": {"scale": 8, "shards": 16, "timeout_s": 3600,
                      "extra_variants": [{"name": "race", "race": True, "shards": 8, "env": {"VERIF_SCALE": "1"}}]},
     },
+    # temporary entry added by the C10 builder (lead: replace/adjust as needed)
+    "C10": {
+        "pkg": "c10",
+        "level": "exploration",
+        "rule": ("session setup: quorum of 2-7 parties, identifiers drawn unsorted in three regimes (ordinal permuted / sparse <= 64 / "
+                 "large incl. 2^32+-1, 2^63, 2^64-1), one PRNG seed per party; run (i) round by round with every message through "
+                 "serde CBOR or (ii) with session.NewSessionRunner over the harness switch; a PARALLEL session over the same "
+                 "quorum in which all parties - or exactly one party - use fresh randomness. Oracle (comparisons only, nothing is "
+                 "recomputed): equal SessionID and transcript output (also after identical appends) for all parties, pairwise seed "
+                 "streams symmetric (first 64 bytes), all pair seeds / transcript outputs of the session, the parallel session and "
+                 "every sub-context pairwise different; SubContext for ALL sub-quorums of size >= 2 (n <= 5; 4-8 drawn ones for "
+                 "n = 6, 7; members list the sub-quorum in different orders) agrees between members, one nested derivation; "
+                 "przs.SampleZeroShare over the full quorum (k256 points and scalars, p256, ed25519 prime subgroup, BLS12-381 "
+                 "scalars and G1; library group law) and over every sub-quorum (drawn group) sums to the identity, is not all "
+                 "identity, is reproducible, differs between the sessions; parents unchanged by derivations. Faults: runner API, "
+                 "ONE deviator whose message of one round is altered on the wire: every leaf of every message type (7 leaves) x "
+                 "{bit flip, all-zero, replace by the same / another field of the parallel session, of another sender (reflected "
+                 "for two parties), of the message for another recipient}; unicast for one drawn recipient, broadcast identically "
+                 "in every copy. Oracle: no panic / hang, honest parties blame nobody but the deviator, completed honest parties "
+                 "agree (incl. zero shares of their sub-context); for the leaves bound by a commitment (Round2Broadcast, "
+                 "Round2P2P, Round3P2P) the recipient - for a broadcast every honest party with a verdict, at least one - rejects "
+                 "with an error that blames the deviator and outputs no context; Round1Broadcast leaves are fresh choices of the "
+                 "sender: only consistency is required. Non-trivial: every case (each contains sub-quorum and zero-share checks, "
+                 "or a fault); distinct = (API, n, ID regime, parallel mode, group, sub-quorum shape) resp. (n, ID regime, message "
+                 "type, leaf, operator)."),
+        "assumptions": COMMON_ASSUME + [
+            "zero shares are added with the library's own group law (curve and field arithmetic are C14/C15)",
+            "hash collisions (BLAKE2b-256, SHA3, cSHAKE256) do not occur among the drawn cases",
+            "a party that sends nothing for 3 s while another party has finished is waiting for a message that will never come (no verdict)",
+        ],
+        "quick": {"scale": 1, "shards": 16, "timeout_s": 600},
+        "thorough": {"scale": 10, "shards": 16, "timeout_s": 3000},
+    },
+}
+
+PROPS["C01"] = {
+    "pkg": "c01",
+    "level": "exploration",
+    "rule": ("drawn (protocol in {Lindell22 x {BIP-340, Mina, configurable Schnorr over k256/p256/ed25519/pallas x 3 hashes x sign x "
+             "endianness}, DKLs23 x {BBOT, SoftSpoken}, Lindell17, Boldyreva, CGGMP21} x key generation in {trusted dealer, Gennaro, "
+             "Canetti, protocol dealers} x access policy from an independent model of the five families (non-ideal CNF / gate trees "
+             "included) x shareholder-ID regime {ordinal, sparse<=64, large<=2^64-1} x qualified quorum (minimal or with extra members) "
+             "x message class x NIZK compiler x per-party seeds); every run goes through the protocols' network runners over a "
+             "harness-owned Delivery (messages pass through CBOR); oracle: run terminates, all aggregators/parties obtain the same "
+             "signature, the library verifier accepts, and an independent verifier (crypto/ecdsa, math/big curve model: textbook ECDSA, "
+             "BIP-340 from the BIP text, Schnorr group equation) accepts for this message and rejects another. Non-trivial: structure "
+             "is not threshold(2,3) with ordinal IDs, or the quorum is non-minimal; distinct = (protocol variant, family, policy, ID "
+             "regime, keygen, minimality, message class)."),
+    "assumptions": COMMON_ASSUME + ["Paillier-based protocols run with 1024-2048-bit fixture/test keys (key-size floors are disabled inside test binaries)",
+                                    "Mina signatures are judged by the library verifier only (no independent Poseidon implementation offline)"],
+    "quick": {"scale": 1, "shards": 16, "timeout_s": 1500},
+    "thorough": {"scale": 6, "shards": 16, "timeout_s": 7200},
+}
+
+PROPS["C03"] = {
+    "pkg": "c03",
+    "level": "exploration",
+    "rule": ("drawn (key generation in {trusted dealer, Gennaro x {Fiat-Shamir, Fischlin, randomised Fischlin}, Canetti} x policy of "
+             "the five families x ID regime x group in {k256, p256, ed25519 prime subgroup, pallas, vesta, BLS12-381 G1, G2} x per-party "
+             "seeds), run through the network runners over a harness Delivery; oracle: every party ends with the same public key, "
+             "verification vector, span programme and public shares; each private share lifts to its public share; for EVERY subset of "
+             "holders: qualified <=> reconstructs one secret s with [s]G = pk (and reconstruction in the exponent gives pk), unqualified "
+             "=> error; shards survive encode/decode byte-identically; public keys never repeat across the campaign and change when one "
+             "party's random stream changes. Non-trivial: n >= 3 or non-threshold family; distinct = (keygen, family, policy, ID regime, group)."),
+    "assumptions": COMMON_ASSUME,
+    "quick": {"scale": 1, "shards": 16, "timeout_s": 1500},
+    "thorough": {"scale": 6, "shards": 16, "timeout_s": 7200},
 }
